@@ -1,1 +1,3 @@
 import Props.C15
+import Props.C08
+import Props.C09
